@@ -235,6 +235,21 @@ pub fn abs_pres_legacy(p: &Value, ghosts: &[Value], agg: &Value) -> Option<Value
     Some(json!({"revealed": revealed, "groups": groups, "self_attested": self_attested, "unrevealed": unrevealed, "predicates": predicates, "identifiers": identifiers, "subs": subs, "agg": agg}))
 }
 
+/// `@context` list of a document → the model's `Envelope.Ctx` list: the three URIs the library compares with are named, the
+/// issuer-dependent vocabulary object is `obj 0`, everything else only has an identity (equal values get equal identities)
+pub fn abs_contexts(ctx: &Value) -> Vec<Value> {
+    let mut seen: Vec<Value> = vec![];
+    let mut id = |v: &Value| -> u64 { match seen.iter().position(|x| x == v) { Some(i) => i as u64 + 1, None => { seen.push(v.clone()); seen.len() as u64 } } };
+    ctx.as_array().cloned().unwrap_or_default().iter().map(|c| match c {
+        Value::String(s) if s == "https://www.w3.org/2018/credentials/v1" => json!({"uri": "v11"}),
+        Value::String(s) if s == "https://www.w3.org/ns/credentials/v2" => json!({"uri": "v20"}),
+        Value::String(s) if s == "https://w3id.org/security/data-integrity/v2" => json!({"uri": "di"}),
+        Value::String(_) => json!({"uri": id(c)}),
+        Value::Object(o) if o.len() == 1 && o.get("@vocab") == Some(&json!("https://www.w3.org/ns/credentials/issuer-dependent#")) => json!({"obj": 0}),
+        _ => json!({"obj": id(c)}),
+    }).collect()
+}
+
 /// W3C presentation (possibly edited, typed) + ghosts → model presentation.
 /// `validate_ok`: the scenario engine knows whether it damaged contexts/types (validate() is crate-private).
 pub fn abs_pres_w3c(p: &W3CPresentation, ghosts: &[Value], agg: &Value, validate_ok: bool) -> Option<Value> {
@@ -292,7 +307,13 @@ pub fn abs_pres_w3c(p: &W3CPresentation, ghosts: &[Value], agg: &Value, validate
     }
     let pj = serde_json::to_value(&p.proof).ok()?;
     let pres_proof_ok = pj["proofPurpose"] == "authentication" && matches!(p.proof.get_proof_value(), DataIntegrityProofValue::Presentation(_));
-    Some(json!({"validate_ok": validate_ok, "creds": creds, "pres_proof_ok": pres_proof_ok, "agg": agg}))
+    // the envelope as the document shows it: the model decides `validate()` from it (Envelope.presValid); the engine's flag is kept
+    // only for the cross-check in the driver (`validate_ok` must agree with what the model computes from `env`)
+    let doc = serde_json::to_value(p).ok()?;
+    let mut types: Vec<Value> = doc["type"].as_array().cloned().unwrap_or_default();
+    types.sort_by_key(|t| t.to_string());
+    let env = json!({"ctx": abs_contexts(&doc["@context"]), "types": types});
+    Some(json!({"validate_ok": validate_ok, "env": env, "creds": creds, "pres_proof_ok": pres_proof_ok, "agg": agg}))
 }
 
 pub fn norm_name(s: &str) -> String {
